@@ -73,6 +73,34 @@ def dispatch (spec : Bool) (line : String) : String :=
   | "RUN" :: a => cmdRun spec false a
   | "RUNV" :: a => cmdRun spec true a
   | "EXEC" :: a => cmdExec spec a
+  | ["TXPARSE", h] =>
+    match ofHex h with
+    | none => "bad-op"
+    | some t =>
+      if spec then
+        -- specification: the text is the hex (white space allowed between bytes) of exactly one well-formed transaction encoding
+        match Model.tryHex (Model.cstr t) with
+        | none => "ERR"
+        | some b =>
+          match Model.parseTx b with
+          | some (tx, []) => if decide (Spec.WellFormed tx) && Spec.encodeTx tx true == b then Model.txLine Crypto.hash256 (some (tx, 0)) else "ERR"
+          | _ => "ERR"
+      else Model.txLine Crypto.hash256 (Model.parseTxHex t)
+  | ["AMOUNT", h] =>
+    match ofHex h with
+    | none => "bad-op"
+    | some t =>
+      let r := if spec then (match Spec.amountOf t with | some v => some v | none => Model.parseFixedPoint t 8) else Model.parseFixedPoint t 8
+      match r with
+      | some v => s!"OK {v}"
+      | none => "ERR"
+  | ["TXARG", h] =>
+    match ofHex h with
+    | none => "bad-op"
+    | some t =>
+      match Model.parseTransactionArg t with
+      | none => "ERR"
+      | some (amts, tx, n) => "OK amounts=" ++ ",".intercalate (amts.map toString) ++ " " ++ Model.txLine Crypto.hash256 (some (tx, n))
   | "BTCC" :: a => cmdBtcc spec a
   | "VALUE" :: a => cmdValue a
   | ["FLAGS", h] =>
